@@ -236,3 +236,22 @@ Theorem C13_env_entries_arrive_partial :
   forall v, env_lookup k (r_env r) = Some v -> env_lookup k el = Some v.
 Proof. exact env_entries_arrive. Qed.
 Print Assumptions C13_env_entries_arrive_partial.
+
+Example C13_split_env_spec_nonvacuous :
+  split_at false php_rule (bs "/a/X.PHP/extra.php") = Ok (bs "/a/X.PHP", bs "/extra.php").
+Proof. vm_compute. reflexivity. Qed.
+
+Example C13_env_headers_arrive_nonvacuous :
+  let q := {| q_method := bs "POST"; q_path := bs "/x.php"; q_query := []; q_requri := bs "/x.php";
+              q_host := bs "h"; q_remote := bs "[::1]:9"; q_proto := bs "HTTP/1.1";
+              q_headers := [(bs "X-Forwarded-For", [bs "a"; bs "b"]); (bs "Content-Length", [bs "3"])];
+              q_prefix := [SLASH]; q_user := []; q_cl := 3%Z |} in
+  let sv := {| sv_name := bs "s"; sv_port := bs "80"; sv_software := bs "Casket"; sv_version := bs "1" |} in
+  match env_list false sv php_rule q (bs "/x.php") with
+  | Ok el => env_lookup (bs "HTTP_X_FORWARDED_FOR") el = Some (bs "a, b") /\
+             env_lookup (bs "REMOTE_ADDR") el = Some (bs "::1") /\
+             env_lookup (bs "CONTENT_LENGTH") el = Some (bs "3") /\
+             env_lookup (bs "SCRIPT_FILENAME") el = Some (bs "/srv/x.php")
+  | Panic => False
+  end.
+Proof. vm_compute. repeat split; reflexivity. Qed.
